@@ -1080,3 +1080,39 @@ package ro
 //@   on error@obsE(ctx, err) : emits Error(ctx, err) ; post status' == 6
 //@   on complete@obsE(ctx) when status + 1 == 5 : emits Complete(ctx) ; post status' == status + 1
 //@   on complete@obsE(ctx) when status + 1 != 5 : emits ; post status' == status + 1
+
+// third batch
+
+//@ operator Defer
+//@   props C04 C12 C09
+//@   note the factory is asked once per subscription, and what it returns is subscribed with the subscriber's context and the downstream observer itself
+//@   alias made=factory()
+//@   track callfn.factory made.SubscribeWithContext
+//@   on subscribe(ctx, destination) : emits callfn.factory(), made.SubscribeWithContext(ctx, destination)
+
+//@ operator MergeMapIWithContext
+//@   props C04 C05 C09
+//@   note the projection stage: every value becomes the (context, observable) pair the user function returns for it, with the running index; the stage is flattened by MergeAll (see MergeMapIWithContext$1)
+//@   ghost n int = 0
+//@   inv i == n
+//@   on next(ctx, value) : emits Next(projection_0(ctx, value, n), projection_1(ctx, value, n)) ; n' = n + 1
+
+//@ func MergeMapIWithContext$1
+//@   props C04 C05
+//@   track call.MergeAll call.NewObservableWithContext callfn.ANY
+//@   ensures [inner-observables-are-merged|C04,C05] trace(call.MergeAll(), call.NewObservableWithContext(_), callfn.ANY(res(call.NewObservableWithContext)))
+
+//@ operator SequenceEqual
+//@   props C04 C05
+//@   note the two sequences are zipped; the first differing pair answers false at once, the end of the zip answers true
+//@   on next(ctx, values) when values.A != values.B : emits Next(ctx, false), Complete(ctx)
+//@   on next(ctx, values) when values.A == values.B : emits
+//@   on complete(ctx) : emits Next(ctx, true), Complete(ctx)
+
+//@ operator ContextWithTimeout
+//@   props C04 C09
+//@   on next(ctx, value) : emits Next(ctx_WithTimeout(ctx, timeout), value)
+
+//@ operator ContextWithDeadline
+//@   props C04 C09
+//@   on next(ctx, value) : emits Next(ctx_WithDeadline(ctx, deadline), value)
